@@ -226,6 +226,13 @@ def _label_edits(prog, f):
                 extra = [x[0] for x in facts_at(cfg, m.id) if x[0] not in [y[0] for y in facts_at(cfg, n.id)]]
                 edits.setdefault(m.ast.targets[0].attr, []).append((m.id, extra))
         out.append((var, n, fm, edits))
+    for n in cfg.eval_nodes():
+        if n.kind != 'stmt':
+            continue
+        for sub in walk_own(n.ast):
+            if isinstance(sub, ast.Call) and prog.callee(sub, f) == ('trees', 'format_label') and sub.args \
+                    and isinstance(sub.args[0], ast.Call) and prog.callee(sub.args[0], f) == ('trees', 'parse_label'):
+                out.append(('<nested>', n, n, {}))
     return out
 
 
@@ -572,6 +579,14 @@ def r_edge(prog, tier):
     hi = tmax is not None and ('cmp', tr, '<=', tmax) in facts
     tld = [unparse(v) for (_, v) in name_defs(f, tl) if isinstance(v, ast.AST)]
     trd = [unparse(v) for (_, v) in name_defs(f, tr) if isinstance(v, ast.AST)]
+    bad_neighbour = None
+    for (_, v) in name_defs(f, tr):
+        if isinstance(v, ast.BinOp) and isinstance(v.op, ast.Add) and unparse(v.right) != '1' and unparse(v.left) != '1':
+            bad_neighbour = '`%s = %s` is not (last token of the span) + 1: it assumes the child covers a continuous span' \
+                            % (tr, unparse(v))
+    for (_, v) in name_defs(f, tl):
+        if isinstance(v, ast.BinOp) and isinstance(v.op, ast.Sub) and unparse(v.right) != '1':
+            bad_neighbour = '`%s = %s` is not (first token of the span) - 1' % (tl, unparse(v))
     shape = len(tld) == 1 and tld[0].startswith('min(') and tld[0].endswith(') - 1') and \
         all(d.startswith('max(') and d.endswith(') + 1') for d in trd) and len(trd) >= 1
     ok = True if (terms_ok and lo and hi and shape) else None
@@ -581,8 +596,10 @@ def r_edge(prog, tier):
         rel_r = [fa for fa in facts if fa[0] == 'cmp' and set((fa[1], fa[3])) == set((tmax, tr))]
         if (rel_l and not lo) or (rel_r and not hi):
             ok = False
+    if bad_neighbour:
+        ok = False
     obs.append(Ob('R-EDGE', f.fq, 'a root child is re-attached exactly when both its left and right neighbour tokens exist',
-                  ok, 'the move is dominated by `%s <= %s` and `%s <= %s` (left neighbour = min - 1, right = max + 1)'
+                  ok, bad_neighbour if bad_neighbour else 'the move is dominated by `%s <= %s` and `%s <= %s` (left neighbour = min - 1, right = max + 1)'
                   % (tmin, tl, tr, tmax) if ok else
                   'neighbour test is not the exact pair  first <= left  and  right <= last: left %s, right %s, '
                   'neighbour definitions ok %s' % (lo, hi, shape), construct='edge', line=n.lineno))
